@@ -174,8 +174,8 @@ def cross_map_pairs(thorough):
             out.append((na, nb))
     return out, skipped
 DOC_ORDER = ['837p', '837p_bad', '837p_gs', '834_5010', '834_5010_ge', '835', '999', '278', 'multi_isa', '834_delims', 'mapless']
-OPNAME = {'P': 'validate[map_path=site copy whose codes.xml lacks state MI]', 'v': 'validate', 'c': 'context', 'x': 'xml2x12', 'V': 'validate[charset=B,exclude=states]', 'C': 'context[charset=B,exclude=states]'}
-MAPPATH_DOCS = ('837p', '834_5010')      # documents with a state code MI: validated under another map directory as well
+OPNAME = {'P': 'validate[map_path=site copy named map whose codes.xml lacks state MI and whose maps.xml lacks the 4010 835]', 'v': 'validate', 'c': 'context', 'x': 'xml2x12', 'V': 'validate[charset=B,exclude=states]', 'C': 'context[charset=B,exclude=states]'}
+MAPPATH_DOCS = ('837p', '834_5010', '835')      # documents with a state code MI, and one the site index does not know: validated under another map directory as well
 VARIANT_DOCS = ('834_5010', '834_delims', '837p')       # documents with lower-case text / state codes, sensitive to the variant
 
 
@@ -301,19 +301,28 @@ def alt_map_dir():
     if _ALT[0] is not None and os.path.isdir(_ALT[0]):
         return _ALT[0]
     src = os.path.join(os.path.dirname(pyx12.__file__), 'map')
-    d = tempfile.mkdtemp(prefix='c18_maps_', dir='/dev/shm' if os.path.isdir('/dev/shm') else None)
+    top = tempfile.mkdtemp(prefix='c18_maps_', dir='/dev/shm' if os.path.isdir('/dev/shm') else None)
+    # the site folder has the conventional name 'map', like the packaged one: only the full path tells them apart
+    d = os.path.join(top, 'map')
+    os.mkdir(d)
     for f in os.listdir(src):
         if f == 'codes.xml':
             t = open(os.path.join(src, f), encoding='utf-8').read()
             assert t.count('<code>MI</code>') >= 1
             open(os.path.join(d, f), 'w', encoding='utf-8').write(t.replace('<code>MI</code>', '', 1))
+        elif f == 'maps.xml':
+            # ... and its index does not know the 4010 835: under this map_path that document has no map (the documented refusal)
+            t = open(os.path.join(src, f), encoding='utf-8').read()
+            line = [l for l in t.split('\n') if 'vriic="004010X091A1"' in l and 'fic="HP"' in l]
+            assert len(line) == 1
+            open(os.path.join(d, f), 'w', encoding='utf-8').write(t.replace(line[0] + '\n', '', 1))
         else:
             os.symlink(os.path.join(src, f), os.path.join(d, f))
     _ALT[0], _ALT[1] = d, os.getpid()
 
     def _rm():
         if os.getpid() == _ALT[1]:
-            shutil.rmtree(d, ignore_errors=True)
+            shutil.rmtree(top, ignore_errors=True)
     atexit.register(_rm)
     return d
 
@@ -686,7 +695,7 @@ def run(R):
     nshards = max(1, min(len(seqs), core.NPROC * 8))
     shards = [seqs[i::nshards] for i in range(nshards)]
     R.pmap(work, shards)
-    R.bounds = {'documents': DOC_ORDER, 'events': nfull, 'event': 'document x {validate, context} x {fresh params, reused params, reused params+maps} + document x xml2x12 + 3 documents x {validate, context} under other parameter values (charset B, external set states excluded) + 2 documents validated under another map_path (a site copy whose codes.xml lacks a state code)',
+    R.bounds = {'documents': DOC_ORDER, 'events': nfull, 'event': 'document x {validate, context} x {fresh params, reused params, reused params+maps} + document x xml2x12 + 3 documents x {validate, context} under other parameter values (charset B, external set states excluded) + 3 documents validated under another map_path (a site copy, itself named map, whose codes.xml lacks a state code and whose maps.xml lacks the 4010 835)',
                 'cross-map pairs': 'for every (node id, parent id) that occurs in several maps with different repeat limits (%s): document A of the stricter map enters the node once, document B of the other map repeats it once more than A allows; sequences [A,B], [B,A] validated and [A,B] read by the context reader; plus the 4010 and 5010 version of one transaction with everything filled at minimal / maximal value lengths' % ('loops and segments' if R.thorough else 'loops'),
                 'sequences_len<=2': n2, 'sequences_len3_over_24_event_subalphabet': n3,
                 'hash_seeds': list(SEEDS), 'baseline_interpreters': nbase,
